@@ -306,6 +306,16 @@ const RELOC_1_BYTE_SIGNED: RelocSizeAndRange = (
     RelocationSize::ByteSize(1),
     AllowedRange::from_byte_size(1, Sign::Signed),
 );
+// R_X86_64_16 and R_X86_64_8 accept anything that fits as either a signed or an unsigned value, as
+// GNU ld and lld do.
+const RELOC_2_BYTE_SIGNED_OR_UNSIGNED: RelocSizeAndRange = (
+    RelocationSize::ByteSize(2),
+    AllowedRange::new(-(1 << 15), 1 << 16),
+);
+const RELOC_1_BYTE_SIGNED_OR_UNSIGNED: RelocSizeAndRange = (
+    RelocationSize::ByteSize(1),
+    AllowedRange::new(-(1 << 7), 1 << 8),
+);
 const RELOC_NONE: RelocSizeAndRange = (RelocationSize::ByteSize(0), AllowedRange::no_check());
 
 /// Returns the supplied x86-64 relocation as RelocationKindType. Returns `None` if the r_type isn't
@@ -332,9 +342,9 @@ pub const fn relocation_from_raw(r_type: u32) -> Option<RelocationKindInfo> {
 
         object::elf::R_X86_64_32 => (RelocationKind::Absolute, RELOC_4_BYTE_UNSIGNED),
         object::elf::R_X86_64_32S => (RelocationKind::Absolute, RELOC_4_BYTE_SIGNED),
-        object::elf::R_X86_64_16 => (RelocationKind::Absolute, RELOC_2_BYTE_SIGNED),
+        object::elf::R_X86_64_16 => (RelocationKind::Absolute, RELOC_2_BYTE_SIGNED_OR_UNSIGNED),
         object::elf::R_X86_64_PC16 => (RelocationKind::Relative, RELOC_2_BYTE_SIGNED),
-        object::elf::R_X86_64_8 => (RelocationKind::Absolute, RELOC_1_BYTE_SIGNED),
+        object::elf::R_X86_64_8 => (RelocationKind::Absolute, RELOC_1_BYTE_SIGNED_OR_UNSIGNED),
         object::elf::R_X86_64_PC8 => (RelocationKind::Relative, RELOC_1_BYTE_SIGNED),
         object::elf::R_X86_64_TLSGD => (RelocationKind::TlsGd, RELOC_4_BYTE_SIGNED),
         object::elf::R_X86_64_TLSLD => (RelocationKind::TlsLd, RELOC_4_BYTE_SIGNED),
